@@ -125,7 +125,7 @@ struct FnExporter {
   json::Value node(const Expr *E, int depth = 0) {
     json::Object o; X.tyInfo(o, E->getType());
     auto args = [&](auto range) { json::Array a; for (auto *A : range) a.push_back(opnd(A, depth)); return a; };
-    if (auto *M = dyn_cast<MemberExpr>(E)) { o["k"] = "member"; o["name"] = M->getMemberDecl()->getNameAsString(); o["did"] = X.did(M->getMemberDecl()); o["arrow"] = M->isArrow(); o["base"] = opnd(M->getBase(), depth); if (auto *F = dyn_cast<FunctionDecl>(M->getMemberDecl())) o["q"] = X.fn(F); return std::move(o); }
+    if (auto *M = dyn_cast<MemberExpr>(E)) { o["k"] = "member"; o["name"] = M->getMemberDecl()->getNameAsString(); o["did"] = X.did(M->getMemberDecl()); o["arrow"] = M->isArrow(); o["base"] = opnd(M->getBase(), depth); if (auto *F = dyn_cast<FunctionDecl>(M->getMemberDecl())) o["q"] = X.fn(F); if (auto *VD = dyn_cast<VarDecl>(M->getMemberDecl())) { if (VD->getType().isConstQualified() && VD->getType()->isIntegralOrEnumerationType() && VD->hasInit() && !VD->getInit()->isValueDependent()) { if (auto *Val = const_cast<VarDecl*>(VD)->evaluateValue()) if (Val->isInt()) o["cv"] = llvm::toString(Val->getInt(), 10); } } return std::move(o); }
     if (auto *U = dyn_cast<UnaryOperator>(E)) { o["k"] = "unop"; o["op"] = UnaryOperator::getOpcodeStr(U->getOpcode()).str(); o["post"] = U->isPostfix(); o["sub"] = opnd(U->getSubExpr(), depth); if (U->getOpcode() == UO_AddrOf) { o["hp"] = X.hasPtr(U->getSubExpr()->getType()); o["st"] = X.ty(U->getSubExpr()->getType()); } return std::move(o); }
     if (auto *B = dyn_cast<BinaryOperator>(E)) { o["k"] = "binop"; o["op"] = B->getOpcodeStr().str(); o["l"] = opnd(B->getLHS(), depth); o["r"] = opnd(B->getRHS(), depth); return std::move(o); }
     if (auto *Cn = dyn_cast<AbstractConditionalOperator>(E)) { o["k"] = "cond"; o["c"] = opnd(Cn->getCond(), depth); o["a"] = opnd(Cn->getTrueExpr(), depth); o["b"] = opnd(Cn->getFalseExpr(), depth); return std::move(o); }
